@@ -63,7 +63,7 @@ Theorem C15_housekeep_expires_first : forall salts now n,
          else (n3, []) in
        let '(n5, fx5) := reconnect_step salts now n4 in
        let n6 := if negb (c_hkfault (n_cfg n5)) && (n_next_own_reset n5 <=? now)%Z
-                 then with_sched (upd n5 (n_peers n5) (n_pending n5) [c_addr (n_cfg n5)] (n_table n5)) (n_next_peers n5) (now + 300)%Z (n_reconnect n5)
+                 then with_sched (upd n5 (n_peers n5) (n_pending n5) (c_advertise (n_cfg n5) ++ [c_addr (n_cfg n5)]) (n_table n5)) (n_next_peers n5) (now + 300)%Z (n_reconnect n5)
                  else n5 in
        (n6, fx1 ++ fx3 ++ fx4 ++ fx5)).
 Proof. exact housekeep_starts_with_expire. Qed.
